@@ -128,6 +128,8 @@ func buildOracle(b builds, cfg tierCfg) oracleInfo {
 		sort.Ints(isoIDs)
 	}
 	iso := make([]string, n)
+	var isoBad []proto.OracleOut
+	var isoMu sync.Mutex
 	sem := make(chan struct{}, workers)
 	var iw sync.WaitGroup
 	for _, id := range isoIDs {
@@ -141,8 +143,10 @@ func buildOracle(b builds, cfg tierCfg) oracleInfo {
 				fatal("isolated oracle call %d produced nothing", id)
 			}
 			iso[id] = o.Outcomes[0]
-			if o.Output != 0 || len(o.ArgMut) > 0 {
-				iso[id] += fmt.Sprintf(" [output=%d argmut=%v]", o.Output, o.ArgMut)
+			if o.Output != 0 || len(o.ArgMut) > 0 || o.Hung >= 0 {
+				isoMu.Lock()
+				isoBad = append(isoBad, o)
+				isoMu.Unlock()
 			}
 		}(id)
 	}
@@ -200,11 +204,51 @@ func buildOracle(b builds, cfg tierCfg) oracleInfo {
 		}
 		return nil
 	}
-	for _, o := range []proto.OracleOut{canon, rev, shuf} {
-		if r := check(o, "ref"); r != nil {
-			oi.viol = r
-			break
+	sort.Slice(isoBad, func(i, j int) bool { return isoBad[i].IDs[0] < isoBad[j].IDs[0] })
+	firstViol := func() *proto.Record {
+		for _, o := range append(append([]proto.OracleOut{}, isoBad...), canon, rev, shuf) {
+			if len(isoBad) > 0 && o.Hung >= 0 && len(o.IDs) == 1 {
+				continue // hangs even alone: handled (fatal) when a pass reaches it
+			}
+			if r := check(o, "ref"); r != nil {
+				return r
+			}
 		}
+		return nil
+	}
+	if r := firstViol(); r != nil {
+		if r.Class == "result_mismatch" && len(isoIDs) < n {
+			// the passes disagree: make the reference the isolated outcome of EVERY call
+			// (each alone in a fresh process) so that the record names the call whose
+			// result depends on history and carries history-free expectations
+			sampled := map[int]bool{}
+			for _, id := range isoIDs {
+				sampled[id] = true
+			}
+			for id := 0; id < n; id++ {
+				if sampled[id] {
+					continue
+				}
+				iw.Add(1)
+				sem <- struct{}{}
+				go func(id int) {
+					defer iw.Done()
+					defer func() { <-sem }()
+					o := oracleRun(b.ref, cfg.procWall, corpusPath, "canonical", []int{id})
+					if len(o.Outcomes) > 0 {
+						isoMu.Lock()
+						ref[id] = o.Outcomes[0]
+						isoMu.Unlock()
+					}
+				}(id)
+			}
+			iw.Wait()
+			oi.iso = n
+			if r2 := firstViol(); r2 != nil {
+				r = r2
+			}
+		}
+		oi.viol = r
 	}
 	if oi.viol == nil {
 		// the instrumented build must reproduce the reference exactly; if the reference is
